@@ -1,30 +1,57 @@
-"""python3-vt -m pyvc.debug <prop> <target idx> <obligation substring> : show one obligation in detail."""
+"""python3-vt -m pyvc.debug <prop> <target idx> <obligation substring> [ghost,names,...] : show one obligation in detail,
+with (for a refuted one) the source-level trace of the counterexample: which ifs / raises were taken, ghost values."""
 import sys, os
 import z3
 from . import api, solve
 from .exec import Exec
 from .vals import simp
+from .state import Heap
 
 def main():
     prop, idx, pat = sys.argv[1], int(sys.argv[2]), sys.argv[3]
     P = api.load_property(prop)
     tgt = P.targets[idx]
     ex = Exec(P.repo, P.reg, prop)
+    ex.workdir = "/tmp/pyvc_q"
+    os.makedirs(ex.workdir, exist_ok=True)
     if tgt.inline_all: ex.inline_all = True
     unit = P.repo.unit(tgt.key)
     obs = ex.verify_unit(unit, tgt.contract)
     for o in obs:
         if pat not in o.id: continue
         print("==", o.id, o.kind, "span", o.span, o.note)
-        pc, g = simp(o.pc), simp(o.goal)
-        s = str(pc); print("PC:", s[:3000])
-        s = str(g); print("GOAL:", s[:3000])
         cache = {}
         txt, n = solve.build_query(ex, o, cache)
         print("assumptions used:", n, "chars", len(txt))
         open("/tmp/dbg.smt2", "w").write(txt)
-        r = solve.decide(txt, "/tmp/pyvc_q", "dbg", timeout_s=30)
+        r = solve.decide(txt, "/tmp/pyvc_q", "dbg", timeout_s=60)
         print("status", r.status, r.log)
+        if r.status != "sat":
+            continue
+        # in-process model (no strings expected in engine obligations)
+        s = z3.Solver(); s.set("timeout", 60000)
+        asm = solve.relevant_assumptions(ex.assumptions[:o.nassume], [o.pc, o.goal], {})
+        for a in asm: s.add(a)
+        s.add(o.pc); s.add(z3.Not(o.goal))
+        if s.check() != z3.sat:
+            print("in-process z3 could not reproduce the model"); continue
+        m = s.model()
+        def ev(t):
+            try: return m.eval(t, model_completion=True)
+            except Exception as e: return "?"
+        print("-- trace (conditions that are TRUE in the model, with their path condition also true):")
+        for what, line, c, pc in ex.trace_log:
+            if z3.is_true(ev(pc)) and z3.is_true(ev(c)):
+                print("   line %s: %s" % (line, what))
+        fin = ex.final_state
+        pre = ex.pre_ghost
+        print("-- ghosts (pre -> final):")
+        for g in sorted(fin.ghost):
+            a, b = pre.get(g), fin.ghost[g]
+            if isinstance(b, Heap): continue
+            va, vb = ev(a) if a is not None else None, ev(b)
+            if str(va) != str(vb):
+                print("   %s: %s -> %s" % (g, str(va)[:80], str(vb)[:80]))
         if len(sys.argv) > 4:
             break
 
